@@ -229,10 +229,11 @@ func lcRoachSrc(idx, variant int, bias bool, k int) string {
 	} else {
 		dastard.VerifNote("obs.again.failed")
 	}
-	if _, _, _, _ = sc.VerifC17Sources(); true {
-		_, _, abaco, lanc := sc.VerifC17Sources()
-		abaco.Delete() // the clean-up calls of RunRPCServer: harmless on sources that never ran
-		lanc.Delete()
+	_, _, abaco, lanc := sc.VerifC17Sources()
+	abaco.Delete() // the clean-up calls of RunRPCServer: harmless on sources that never ran
+	lanc.Delete()
+	if h.ds == nil {
+		h.ds = abaco
 	}
 	return h.finish(true)
 }
